@@ -74,37 +74,39 @@ def oracleHold (k : KState) (hist : List KEv) (items : List TItem) : Option Stri
   match marker k 1 with
   | none => none
   | some m =>
-    -- the hold key: the physical key whose custom list is [fakeKeyHold (1,1) D]
-    let holdKey : Option (Nat × Nat) := (k.layout.cfg.layers[0]?.getD []).findSome? fun (c, a) =>
+    -- the hold keys: the physical keys whose custom list is [fakeKeyHold (1,1) D] (each with its own D)
+    let holdKeys : List (Nat × Nat) := (k.layout.cfg.layers[0]?.getD []).filterMap fun (c, a) =>
       match a with
       | .custom id => match k.customs[id]? with
         | some [.fakeKeyHold (1, 1) d] => if c.1 == 0 then some (c.2, d) else none
         | _ => none
       | _ => none
-    match holdKey with
-    | none => none
-    | some (hk, d) =>
+    if holdKeys.isEmpty then none else
+      let durOf (y : Nat) : Option Nat := (holdKeys.find? (·.1 == y)).map (·.2)
+      let dmax := holdKeys.foldl (fun m p => max m p.2) 0
       let onlyHold := hist.all fun e => match e with
-        | .press c | .release c => c == (0, hk)
+        | .press c | .release c => c.1 == 0 && (durOf c.2).isSome
         | .tick _ => true
         | _ => false
-      let longTail := match hist.getLast? with | some (.tick t) => t ≥ d + 10 | _ => false
+      let longTail := match hist.getLast? with | some (.tick t) => t ≥ dmax + 10 | _ => false
       if !onlyHold || !longTail then none else
-      -- activation times: each press is processed one tick after it arrives (events one per tick)
-      let rec times : List KEv → Nat → List Nat
+      -- activations (time, stated duration): each press is processed one tick after it arrives
+      let rec acts : List KEv → Nat → List (Nat × Nat)
         | [], _ => []
-        | .tick t :: rest, vt => times rest (vt + t)
-        | .press _ :: rest, vt => vt :: times rest vt
-        | _ :: rest, vt => times rest vt
-      let ts := times hist 0
+        | .tick t :: rest, vt => acts rest (vt + t)
+        | .press c :: rest, vt => (vt, (durOf c.2).getD 0) :: acts rest vt
+        | _ :: rest, vt => acts rest vt
+      let ts := acts hist 0
       match ts with
       | [] => none
-      | t0 :: _ =>
+      | (t0, _) :: _ =>
         let ds := (items.flatMap fun it => it.evs.filterMap fun e =>
           if e == s!"d{m}" then some (it.vt, true) else if e == s!"u{m}" then some (it.vt, false) else none)
         -- with presses and releases queued one per tick the exact ticks depend on queue position;
-        -- what must hold: one press per episode, down no earlier than the first activation + 1,
-        -- up no earlier than (last activation before it) + D, and up at the end
+        -- what must hold: down no earlier than the first activation + 1, up no earlier than some
+        -- activation's own time + its stated duration, up at the end, and the LAST release no later
+        -- than the most recent activation's time + ITS stated duration (+ queueing slack): the most
+        -- recent activation decides, whatever was left of an earlier, longer one
         let endsUp := !(downAt items 1000000).contains m
         let firstDown := ds.find? (·.2)
         if !endsUp then some s!"hold-for-duration: virtual key 1 still down at the end"
@@ -113,17 +115,17 @@ def oracleHold (k : KState) (hist : List KEv) (items : List TItem) : Option Stri
           | some (td, _) =>
             if td < t0 + 2 then some s!"hold-for-duration: down at {td}, before the activation at {t0} could be processed"
             else
-              -- every up-transition at time tu needs an activation a with a + d ≤ tu
-              let bad := ds.find? fun (tu, isDown) => !isDown && !(ts.any fun a => a + 1 + d ≤ tu)
+              let bad := ds.find? fun (tu, isDown) => !isDown && !(ts.any fun a => a.1 + 1 + a.2 ≤ tu)
               match bad with
-              | some (tu, _) => some s!"hold-for-duration {d}: released at {tu}, earlier than {d} ms after every activation {ts}"
+              | some (tu, _) => some s!"hold-for-duration: released at {tu}, earlier than the stated time after every activation {ts}"
               | none =>
-                -- and the last release is not later than last activation + d + number of queued events + 2
                 let lastUp := (ds.filter (!·.2)).getLast?.map (·.1)
-                let lastAct := ts.getLast?.getD 0
-                match lastUp with
-                | some tu => if tu > lastAct + d + 2 * ts.length + 3 then some s!"hold-for-duration {d}: released at {tu}, long after the last activation {lastAct}" else none
-                | none => none
+                match lastUp, ts.getLast? with
+                | some tu, some (la, ld) =>
+                  if tu > la + ld + 2 * ts.length + 3 then
+                    some s!"hold-for-duration: released at {tu}, long after the most recent activation at {la} with stated time {ld}"
+                  else none
+                | _, _ => none
 
 /-- family 3: on-idle tap of virtual key 2 under the processing loop -/
 def oracleIdle (k : KState) (hist : List KEv) (items : List TItem) : Option String :=
